@@ -113,8 +113,10 @@ structure OperandN (α lab : Type) (r : Nat) where
 
 /-- class quirks -/
 structure SchN where
-  /-- DenseSquareTaxaTraitMatrix: the axis-specific non-mutating methods drop the other bundle's labels (D27) -/
-  pureDropsOther : Bool := true
+  /-- (pre-repair, before the fix of D27) DenseSquareTaxaTraitMatrix inherited the axis-specific non-mutating methods of
+      its single-bundle parents: they dropped the other bundle's labels.  `false` = the code as it is now (ten overrides
+      hand the other bundle's arrays to the new object); `true` only in the `…_prerepair_counterexample` -/
+  pureDropsOther : Bool := false
   deriving DecidableEq, Repr
 
 variable {r : Nat}
